@@ -147,10 +147,13 @@ def job_shape(job):
 
 
 def main(argv):
-    chk = Check('C07', argv, features='')
+    chk = Check('C07', argv, features='svg')
     chk.rule = ('one obligation per EC codeword position per (block length, ec) shape, block bytes all symbolic; '
                 'non-trivial = the obligation has free variables (block bytes); distinct by (cell, position)')
     chk.load()
+    from checks import kconfirm
+    chk.run_kani([{'harness': 'c07_gf_multiply_kernel', 'key': 'C07/kernel', 'confirm': kconfirm.gf_kernel,
+                   'symbolic': 'a: u8 (all), e: u8 < 255 (all) - independent of the MIR engine and its normaliser'}])
     prog = M.Program(chk.mir_text, chk.ov.dir)
     tables, I0 = crate_tables(prog)
     chk.absorb(interp_stats(I0))
